@@ -124,6 +124,15 @@ func cliMake(args []string) int {
 		}
 	}
 	pix := 3440.64 / math.Pow(2, float64(minZ)) / 16
+	otherSet := false
+	if *mode == "normal" && rng.Intn(4) == 0 {
+		// one of the other tile matrix sets the tool accepts (the coordinates of the RD window lie well inside their extents)
+		c.Tms = []string{"WebMercatorQuad", "UPSArcticWGS84Quad", "UPSAntarcticWGS84Quad", "WorldMercatorWGS84Quad"}[rng.Intn(4)]
+		if t, err := tms20.LoadEmbeddedTileMatrixSet(c.Tms); err == nil {
+			pix = t.TileMatrices[minZ].CellSize / 16
+		}
+		otherSet = true
+	}
 	// tables
 	var tables []*srcTable
 	nt := 1 + rng.Intn(3)
@@ -150,7 +159,7 @@ func cliMake(args []string) int {
 			t.gcolPos = 2
 		}
 		for i := range t.rows {
-			out := rng.Intn(12) == 0 && *mode == "normal"
+			out := rng.Intn(12) == 0 && *mode == "normal" && !otherSet
 			switch gt {
 			case gsgpkg.Polygon:
 				t.rows[i].g = rdPolygon(rng, pix, out)
